@@ -47,7 +47,9 @@ class Shim:
         return L1(a, n, step)
 
 
-_f = types.FunctionType(gd.time_series_idxs.__code__, {**gd.time_series_idxs.__globals__, "jnp": Shim})
+_f = types.FunctionType(gd.time_series_idxs.__code__, {**gd.time_series_idxs.__globals__, "jnp": Shim}, gd.time_series_idxs.__name__,
+                        gd.time_series_idxs.__defaults__, gd.time_series_idxs.__closure__)
+_f.__kwdefaults__ = gd.time_series_idxs.__kwdefaults__
 
 
 def check_idxs(p: int, f: int, dt: int, T: int, w: int, j: int, jf: int) -> bool:
